@@ -6,7 +6,10 @@ use orx_concurrent_iter::*;
 use std::sync::atomic::{AtomicUsize, Ordering};
 
 fn boxed(n: usize) -> Vec<Box<usize>> {
-    (0..n).map(Box::new).collect()
+    // spare capacity: a buffer rebuilt or released with the length as its capacity is caught
+    let mut v = Vec::with_capacity(n + 3);
+    v.extend((0..n).map(Box::new));
+    v
 }
 
 fn pull_mixed<C>(it: &C, t: usize, sum: &AtomicUsize)
